@@ -1654,8 +1654,9 @@ class Inliner:
                     return None, 0
                 if self._overridden_below(h, f.attr):
                     return None, 0
-                if h[1] == "method" and f.attr in self.foreign_defs and f.value.id == selfn:
-                    return None, 0  # `self.helper()` may dispatch to an override defined in another module
+                owner_cls = next((k[0] for k, v in self.helpers.items() if v is h), None)
+                if h[1] == "method" and f.value.id == selfn and ((owner_cls, f.attr) in self.foreign_defs or (cls.name, f.attr) in self.foreign_defs):
+                    return None, 0  # `self.helper()` may dispatch to an override defined in a subclass in another module
                 return h, (1 if h[1] in ("method", "class") else 0)
         return None, 0
 
